@@ -35,8 +35,12 @@ THEOREMS = [
     "Typedpy.C12.extend_drops_required",
     "Typedpy.C12.derive_example",
 ]
-RULE = ("source classes from hierarchies of 1..3 classes (mutable, ImmutableStructure / FinalStructure roots, "
-        "inheritance, multiple bases, mixins, defaults of every spelling, Constants, _ignore_none own / inherited); "
+RULE = ("source classes from hierarchies of 1..5 classes (mutable, ImmutableStructure / FinalStructure roots, "
+        "inheritance, multiple bases, mixins, defaults of every spelling, Constants, _ignore_none own / inherited); 40% of "
+        "the sources come from the multiple-inheritance stream (diamonds S(L, R) over a shared root, longer arm, three "
+        "bases, two unrelated roots, double diamond, leaf below the join; a field re-declared - usually the same kind with "
+        "other constraints - at the first base / a later base / the join / the leaf); probe values for a retained field "
+        "are drawn from EVERY declaration of that name in the source's hierarchy; "
         "compositions of 1..3 operators drawn from Partial / AllFieldsRequired / Extend / Omit / Pick (subscript, "
         "named subscript and Structure.omit/pick spellings) over random subsets of the field names (incl. repeated and "
         "unknown names), derived classes further extended by subclassing with new / redeclared fields and derived "
